@@ -1404,6 +1404,35 @@ def accumulation(ctx, key, result, paths=None):
 
 # ---------------------------------------------------------------- "exactly two parts": `v = s.split(c).collect(); v.len() == 2`  ==  `s.split_once(c)` and no further c in the tail
 
+def nth_next(p, is_source):
+    """{next-call term: k} for the successive `it.next()` calls on an iterator local whose initial value satisfies is_source (e.g. s.split(':')):
+    the k-th call yields item k, provided nothing else touches the iterator in between (then positions are unknown from there on)"""
+    seq = {}
+    count = {}
+    for e in p.events:
+        if e.kind != "call" or not e.args:
+            continue
+        r = e.args[0]
+        if not (isinstance(r, tuple) and r[0] == "refmut" and isinstance(r[1], tuple) and r[1][0] == "loc"):
+            continue
+        l = r[1][1]
+        st = r[1][2] if len(r[1]) > 2 else None
+        if not e.name.endswith("::next"):
+            if l in count:
+                count[l] = None
+            continue
+        first = is_source(strip_refs(st)) if l not in count else (isinstance(st, tuple) and st and st[0] == "mutated" and st[1] == l)
+        if not first:
+            if l in count:
+                count[l] = None
+            continue
+        if count.get(l, 0) is None:
+            continue
+        seq[e.term] = count.get(l, 0)
+        count[l] = count.get(l, 0) + 1
+    return seq
+
+
 def two_part_split(p, is_subject, sep):
     """What path p assumed about splitting the subject at `sep` into exactly two parts:
          ('two', is_part0, is_part1) | ('not-two', None, None) | (None, None, None) when the path does not decide it.
@@ -1423,6 +1452,24 @@ def two_part_split(p, is_subject, sep):
                 return ("two", part(0), part(1))
             if 2 not in ok_n:
                 return ("not-two", None, None)
+    # form 3: the first three items pulled off s.split(sep) by hand: Some, Some, None  <=>  exactly two parts
+    seq = nth_next(p, lambda t: is_call(t, "str>::split") and _sep(call_args(t)[1]) == sep and is_subject(content(call_args(t)[0])))
+    if seq:
+        got = {}
+        for c in p.conds():
+            if c.term[0] == "discr" and strip_refs(c.term[1]) in seq:
+                got[seq[strip_refs(c.term[1])]] = c.fact == ("eq", 1) or (c.fact[0] == "ne" and 0 in c.fact[1] and 1 not in c.fact[1])
+        if got.get(0) is True and got.get(1) is True and got.get(2) is False:
+            inv = {k: t for t, k in seq.items()}
+
+            def part(i):
+                return lambda t, i=i: mentions(t, lambda s_: len(s_) > 2 and s_[0] == "field" and s_[2] == 0 and isinstance(s_[1], tuple) and s_[1][0] == "downcast" and s_[1][2] == "Some" and strip_refs(s_[1][1]) == inv[i]) \
+                    and not any(mentions(t, lambda s_, j=j: len(s_) > 2 and s_[0] == "field" and isinstance(s_[1], tuple) and s_[1][0] == "downcast" and strip_refs(s_[1][1]) == inv[j]) for j in inv if j != i)
+            return ("two", part(0), part(1))
+        if got and (got.get(0) is False or got.get(1) is False or got.get(2) is True):
+            return ("not-two", None, None)
+        if got:
+            return (None, None, None)
     # form 2: split_once + tail.contains(sep)
     found = None
     so = None
